@@ -12,3 +12,5 @@ for cfg in ('full', 'plain'):
     d, dig, s = extract.ensure('/repo', '.', cfg) if False else extract.ensure('/repo', __import__('os').path.abspath('.'), cfg)
     print('facts', cfg, d, '%.1fs' % s)
 PY
+# warm the target dir of the compile-fail witnesses (C08.R7, C12.R5): builds tonic once under cargo +nightly test --doc
+./check C12 --no-evidence > /dev/null 2>&1 || true
